@@ -38,6 +38,7 @@ def run_one(pid, tier, root, seed, quiet=False):
                     mutants=[dict(name=m['name'], exit=m['rc'], first_report=(m['lines'] or [''])[0][:200]) for m in res['mutants']],
                     mutants_total=len(res['mutants']), mutants_detected=sum(1 for m in res['mutants'] if m['rc'] == 1),
                     twins_total=len(res['twins']), twins_silent=sum(1 for t in res['twins'] if t['rc'] == 0),
+                    benign_refactorings_total=len(res['benign']), benign_refactorings_silent=sum(1 for t in res['benign'] if t['rc'] == 0),
                     skipped_patches_not_applicable_to_this_tree=res['skipped'])
                 problems = []
                 if res['noisy']:
